@@ -23,6 +23,7 @@ type Obl struct {
 	Vars   []ModelVar // what to print from the model
 	query  string
 	Result *SolveResult
+	plan   *replayPlan // non-nil: inputs are plain values, candidate models can be run on the real code
 }
 
 type ModelVar struct {
@@ -71,6 +72,7 @@ type VC struct {
 	pureUsed map[string]bool
 	assumed  map[string]bool // contracts assumed (externs, trusted, callee contracts)
 	recs     map[string]*recInfo
+	replay   *replayPlan
 }
 
 type epochSrc struct {
